@@ -8,7 +8,7 @@ from .model import AnalysisError, ClassInfo
 from .values import *    # noqa
 from .strtree import *   # noqa
 from .symeval import Env, RaiseSignal, is_strlike, neg_cond, make_phi, seq_concat
-from .symeval_ops import BoundBuiltin, DerivV, NTClassV, NTV, ExcV, ChunkListV, BoundTupleOf
+from .symeval_ops import BoundBuiltin, DerivV, NTClassV, NTV, ExcV, ChunkListV, BoundTupleOf, PyObjV
 
 
 _MATH1 = {"exp": ep.exp_, "log": ep.log_, "sqrt": ep.sqrt_}
@@ -451,6 +451,40 @@ class ExtMixin(object):
                 out.append(ListV([Const(nm), v], "tuple"))
         return ListV(out, "list")
 
+    def x_inspect_signature(self, args, kwargs, node, env):
+        """inspect.signature(callable) reproduced from the source's own parameter lists"""
+        f = args[0]
+        if isinstance(f, InstV):
+            fi = f.ci.lookup("__call__")
+            if fi is None:
+                self.err(node, "signature of a non-callable instance")
+            a, skip = fi.node.args, 1
+        elif isinstance(f, FuncV):
+            a, skip = f.fi.node.args, (1 if f.selfv is not None else 0)
+        else:
+            self.err(node, "inspect.signature(%r)" % (f,))
+        params = []
+        for x in (a.posonlyargs + a.args)[skip:]:
+            params.append((x.arg, "POSITIONAL_OR_KEYWORD"))
+        if a.vararg is not None:
+            params.append((a.vararg.arg, "VAR_POSITIONAL"))
+        for x in a.kwonlyargs:
+            params.append((x.arg, "KEYWORD_ONLY"))
+        if a.kwarg is not None:
+            params.append((a.kwarg.arg, "VAR_KEYWORD"))
+        d = DictV()
+        for nm, kind in params:
+            d.items[Const(nm).key()] = (Const(nm), PyObjV(_ParamModel(nm, kind)))
+        return PyObjV(_SigModel(d))
+
+    x_funcsigs_signature = x_inspect_signature
+
+    def x_inspect_isclass(self, args, kwargs, node, env):
+        return Const(isinstance(args[0], (ClassV, LocalClassV, NTClassV)))
+
+    def x_inspect_isfunction(self, args, kwargs, node, env):
+        return Const(isinstance(args[0], FuncV))
+
     def x_collections_OrderedDict(self, args, kwargs, node, env):
         return self.x_dict(args, kwargs, node, env)
 
@@ -756,6 +790,26 @@ class BecomeSignal(Exception):
     def __init__(self, old, new):
         self.old = old
         self.new = new
+
+
+class _ParamModel(object):
+    def __init__(self, name, kind):
+        self.name = name
+        self.kind = kind
+
+    def get_name(self, I):
+        return Const(self.name)
+
+    def get_kind(self, I):
+        return ExtV("inspect.Parameter." + self.kind)
+
+
+class _SigModel(object):
+    def __init__(self, params):
+        self.params = params
+
+    def get_parameters(self, I):
+        return self.params
 
 
 class CmpKeyV(V):
